@@ -78,16 +78,35 @@ def closed_form(sm, ss, lm, ls):
 
 # --------------------------------------------------------------------------- known-finding classes
 
+def defective_reference(d):
+    """The recorded defective behaviour, reproduced faithfully: QUADPACK with scipy's default tolerances and no break points
+    on the property's own integrand over +-16 load scatters (what the unrepaired pf_norm_load computes).  A failing input counts
+    as a *known* finding only if the implementation returned this value; any other wrong value is a new violation."""
+    import warnings
+    from scipy import integrate
+    from scipy.stats import norm
+    s50, lm, sc, ss = math.log10(d['strength_median']), math.log10(d['load_median']), d['load_std'], d['strength_std']
+    with warnings.catch_warnings():
+        warnings.simplefilter('ignore')
+        q, _ = integrate.quad(lambda x: norm.pdf(x, loc=0.0, scale=sc) * norm.cdf(x, loc=s50 - lm, scale=ss), -16. * sc, 16. * sc)
+    return float(q)
+
+
+def reproduces_defect(d):
+    ref = defective_reference(d)
+    return abs(d['observed'] - ref) <= 1e-9 * abs(ref) + 1e-300
+
+
 def k_abs_tolerance(d):
     """quad's default absolute tolerance 1.49e-8 ends the refinement although the relative error is still large:
-    small failure probabilities, absolute error within that tolerance."""
-    return d['expected'] < 2e-2 and abs(d['observed'] - d['expected']) <= 2e-8
+    small failure probabilities, absolute error within that tolerance, and the value is the one default QUADPACK gives."""
+    return d['expected'] < 2e-2 and abs(d['observed'] - d['expected']) <= 2e-8 and reproduces_defect(d)
 
 
 def k_step_missed(d):
     """strength distribution much narrower than the load distribution: the bisection of +-16 load scatters steps over the
-    transition of the strength cdf (absolute error up to about 1e-2)."""
-    return d['load_std'] / d['strength_std'] >= 40.0 and 2e-8 < abs(d['observed'] - d['expected']) <= 2e-2
+    transition of the strength cdf (absolute error up to about 1e-2), and the value is the one default QUADPACK gives."""
+    return d['load_std'] / d['strength_std'] >= 40.0 and 2e-8 < abs(d['observed'] - d['expected']) <= 2e-2 and reproduces_defect(d)
 
 
 # --------------------------------------------------------------------------- generators
@@ -321,6 +340,21 @@ def impl_relations(res, rng, n_pts, n_chain, n_lim, n_arb, n_simple):
     return R
 
 
+def extended_search(res, rng, n):
+    """Only used when a proof obligation is broken: the closed-form relation far in both tails."""
+    ps = []
+    for _ in range(n):
+        p = gen_params(rng)
+        s = math.sqrt(p['load_std'] ** 2 + p['strength_std'] ** 2)
+        z = rng.choice([-1, 1]) * rng.uniform(7.0, 12.0)
+        p['load_median'] = 10 ** (math.log10(p['strength_median']) + z * s)
+        ps.append(p)
+    R = Relations(res)
+    for p, g in zip(ps, pmap(eval_norm, ps)):
+        R.point(p, g)
+    return R.n
+
+
 # --------------------------------------------------------------------------- certificates
 
 def certificates(res, rng, n_norm, n_simple, n_arb):
@@ -404,14 +438,25 @@ def run(res):
     res.cov['closed_form_disagreements'] = R.flagged
     res.cov['relation_pairs_skipped_because_endpoint_already_reported'] = R.skipped_pairs
     res.cov['calls_that_raised'] = R.raised
+    if not proofs_ok:
+        # a proof obligation broke: widen the failing-input search beyond the property's stated range (|z| up to 12,
+        # i.e. failure probabilities down to 1.8e-33; further out the +-16 scatter truncation of the integral itself
+        # limits the relative accuracy), where a changed limit / constant shows
+        k = extended_search(res, res.rng, 300 if quick else 3000)
+        res.add_cases(k)
+        res.cov['extended_search_evaluations'] = k
     # D1: certificates (need the compiled theories)
     if proofs_ok:
         try:
             n_norm, n_s, n_a = (28, 8, 4) if quick else (400, 60, 30)
             goals, descr, ag, ad, skipped = certificates(res, res.rng, n_norm, n_s, n_a)
             nshard = max(2, common.NCPU - 2)
-            ok, bad, log = cert.run_certs('C15', REQ, UNFOLD, goals, chunk=max(1, -(-len(goals) // nshard)), timeout=1500, final_tac=INTEGRAL)
-            ok2, bad2, log2 = cert.run_certs('C15arb', REQ, [], ag, chunk=max(1, -(-len(ag) // nshard)), timeout=1500, extra_tac=ARB_UNFOLD, final_tac=ARB_FINAL)
+            from concurrent.futures import ThreadPoolExecutor
+            with ThreadPoolExecutor(max_workers=2) as ex:      # the two families of goals are compiled concurrently
+                f1 = ex.submit(cert.run_certs, 'C15', REQ, UNFOLD, goals, chunk=max(1, -(-len(goals) // nshard)), timeout=1500, final_tac=INTEGRAL)
+                f2 = ex.submit(cert.run_certs, 'C15arb', REQ, [], ag, chunk=max(1, -(-len(ag) // 4)), timeout=1500, extra_tac=ARB_UNFOLD, final_tac=ARB_FINAL)
+                ok, bad, log = f1.result()
+                ok2, bad2, log2 = f2.result()
             oks = set(ok) | {len(goals) + i for i in ok2}
             bad = list(bad) + [len(goals) + i for i in bad2]
             goals, descr, log = goals + ag, descr + ad, log + log2
